@@ -141,7 +141,21 @@ def run(ctx, F, cg):
             # the set is built from voter ids
             src = od.expr_of_place(b, [sa, []], 0, set())
             txt = " ".join(receiver_chain(b, src))
-            if "ClusterConfig::voters" in txt or "NodeConfig" in txt:
+            # the inlined form: config.nodes.iter().filter(|n| n.voter)...collect()
+            inlined = False
+            adapt = lambda cc: [0] if cc.path.rsplit("::", 1)[-1] in ("collect", "map", "filter", "iter", "into_iter", "copied", "cloned", "deref", "filter_map", "from_iter") else None
+            og_ = b.origins(sa, through_calls=adapt)
+            for o in og_:
+                if o[0] == "via" and o[1].path.rsplit("::", 1)[-1] == "filter":
+                    for a_ in o[1].args[1:]:
+                        if a_[0] != "k":
+                            for o2 in b.origins(a_[1][0]):
+                                if o2[0] == "agg" and o2[1].startswith("closure:"):
+                                    cr_ = F.fns.get(o2[1][8:])
+                                    if cr_ and any(x.endswith("NodeConfig.voter") for x in cr_["r"]):
+                                        inlined = True
+            reads_nodes = any(f.endswith("ClusterConfig.nodes") for o in og_ if o[0] == "via" and o[1].args and o[1].args[0][0] != "k" for f in od.chain_fields(b, o[1].args[0]))
+            if "ClusterConfig::voters" in txt or "NodeConfig" in txt or (inlined and reads_nodes):
                 ctx.ok("R33b", "distinct-voters", "both counts are over set _%d built from %s" % (sa, od.show(src)))
             else:
                 ctx.violation("R33b", "set-not-from-voters", where(r), "the id set is not built from the configuration's voters: %s" % od.show(src))
